@@ -175,7 +175,7 @@ TStart ==
          v6 == (IF iv.tok < 0 /\ Cardinality(runNow) > iv.j THEN {V("C06", "more commands running than -j allows", "")} ELSE {})
                \cup (IF poolBad THEN {V("C06", "more commands running in a pool than its depth", "")} ELSE {})
                \cup (IF i \in ToS(iv.started) THEN {V("C06", "command started twice in one invocation", "")} ELSE {})
-               \cup (IF iv.tok >= 0 /\ Cardinality(runNow) > 1 + (iv.tok - E.fifo)
+               \cup (IF iv.tok >= 0 /\ E.fifo >= 0 /\ Cardinality(runNow) > 1 + (iv.tok - E.fifo)
                      THEN {V("C06", "more commands running than jobserver tokens held", "")} ELSE {})
          v11 == IF s.dd # "" /\ s.dd \in meta.ddbad THEN {V("C11", "a command was started although its dyndep file is malformed or inconsistent", "")} ELSE {}
      IN /\ viol' = viol \cup v4 \cup v5 \cup v6 \cup v11
